@@ -196,6 +196,47 @@ def run(ctx):
                 d = maxdiff(ph, [s[i] * x for x in p0]); ctx.count((n, k, l, B, i, var, 'extprod-real'))
                 if d > step_bound:
                     ctx.report('extprod-real', '%s variant: phase(bk_%d (*) c) differs from s_%d*phase(c) by %d units, bound %d' % (var, i, i, d, step_bound), {'case': line[:300000], 'opcode': opc, 's_i': s[i], 'maxdiff': d})
+    # --- D: complete key sets as the public constructors build them (new_LweBootstrappingKeyFFT): the FFT-domain key is an image of
+    #     the coefficient-domain key for EVERY row i < n, also when n exceeds k*N (the two loops of the constructor have
+    #     different lengths), and both blind rotations agree with X^(sum bara_i s_i) when the last rows are exercised
+    from props.c04 import A_BK, A_KS
+    full = [(0, 1030, 1, 2, 10, 8, 2, A_BK, A_KS), (0, 5, 2, 2, 10, 4, 4, A_BK, A_KS), (80, 0, 0, 0, 0, 0, 0, 0, 0)]
+    if thorough: full += [(0, 1024, 1, 3, 7, 8, 2, A_BK, A_KS), (0, 2050, 2, 2, 10, 2, 8, A_BK, A_KS), (128, 0, 0, 0, 0, 0, 0, 0, 0)]
+    for fi, f in enumerate(full):
+        spec = fmt(list(f) + [ctx.seed * 10 + 7 + fi])
+        g0 = ints(vlib.run_lines(exe, ['fullkey ' + spec], timeout=1800)[0]); n, k, l, B = g0[0], g0[2], g0[3], g0[4]; s = g0[7:7 + n]
+        vecs = []
+        for t in range(3):
+            bara = [0] * n
+            idx = sorted({n - 1, rng.randrange(n), rng.randrange(max(0, n - 8), n)} | ({k * N, k * N - 1, n - 2} if n > k * N else set()))
+            for i in idx: bara[i] = rng.choice([1, N, 2 * N - 1, rng.randrange(1, 2 * N)])
+            vecs.append(bara)
+        v = [rng.randrange(-2**31, 2**31) for _ in range(N)]
+        lines = ['keyimage ' + spec] + ['brpair %s %s %s' % (spec, fmt(bara), fmt(v)) for bara in vecs]
+        io = vlib.run_lines(exe, lines, timeout=3600)
+        ctx.count(('keyimage', f))
+        if io[0].startswith('CRASH'): ctx.report('fft-key-image-crash', 'converting the FFT-domain key back died (n=%d k=%d): %s' % (n, k, io[0][:80]), {'case': lines[0]})
+        else:
+            img = ints(io[0]); bad = [i for i, d in enumerate(img) if d > 1]
+            worst[('keyimage', n, k, l, B)] = max(img)
+            if bad:
+                ctx.report('fft-key-image', 'key set n=%d k=%d (l,B)=(%d,%d): %d of the %d samples of the FFT-domain bootstrapping key are not the image of the coefficient-domain key (first at i=%d, off by %d units; k*N=%d)' % (
+                    n, k, l, B, len(bad), n, bad[0], img[bad[0]], k * N), {'case': lines[0], 'bad_rows': bad[:50]})
+        sigma = (f[7] if f[0] == 0 else 32768) / 256.0
+        for bara, line, o in zip(vecs, lines[1:], io[1:]):
+            ctx.count(('brpair', f, tuple(i for i, x in enumerate(bara) if x)))
+            if o.startswith('CRASH'): ctx.report('blindrotate-crash', 'blind rotation under a complete key set n=%d died: %s' % (n, o[:80]), {'case': line[:300000]}); continue
+            r = ints(o); tk = r[:k * N]; ph = [r[k * N:k * N + N], r[k * N + N:k * N + 2 * N]]
+            steps = sum(1 for x in bara if x)
+            e = sum(a * b for a, b in zip(bara, s)) % (2 * N)
+            exp = rot(v, e)
+            # rows within 10 sigma (the run aborts otherwise with probability < 1e-15): worst-case bound of extprod_error_bound per executed step
+            bound = steps * int((k + 1) * l * N * (1 << (B - 1)) * 10 * sigma + (1 + k * N) * (1 << (32 - l * B)) + fft_tol(k, l, B))
+            for var, p1 in zip(('coefficient', 'fft'), ph):
+                d = maxdiff(p1, exp); worst[('brpair', n, k, l, B, var)] = max(worst.get(('brpair', n, k, l, B, var), 0), d)
+                if d > bound:
+                    ctx.report('blindrotate-fullkey', '%s variant under a complete key set n=%d k=%d (l,B)=(%d,%d), non-zero exponents at %s: phase differs from X^%d * v by %d units (bound %d for %d executed steps)' % (
+                        var, n, k, l, B, [i for i, x in enumerate(bara) if x], e, d, bound, steps), {'case': line[:300000], 'variant': var, 'exponent': e, 'maxdiff': d, 'bound': bound})
     ctx.cov['extprod_cases'] = nB
     ctx.cov['worst_observed_difference_units'] = {str(k): v for k, v in sorted(worst.items(), key=str)}
     ctx.sample({'extprod worst differences (units of 2^-32)': {str(k): v for k, v in list(sorted(worst.items(), key=str))[:8]}})
